@@ -26,6 +26,10 @@ def gen(rng, tier):
         cs.append(Case("ed_to_curve %s %s" % (hx(pk), hx(seed + pk)), cls="ed_to_curve/honest",
                        expect=lambda a: a.startswith("ok ") and a.endswith(" consistent"), meta={"why": "converted pair inconsistent: base·(converted sk) ≠ converted pk"}))
     # a key pair derived from a password: the Config's hash_length / salt_length must not influence the key (libsodium: crypto_pwhash with outlen 32)
+    # the EMPTY password and one-byte passwords (libsodium accepts a zero-length password): the derived pair is libsodium's
+    for pwd in (b"", b"\x00", b"a"):
+        for salt in (bytes(16), rbytes(rng, 16)):
+            cs.append(Case("pwhash_keypair 1 8192 %s %s" % (hx(pwd), hx(salt)), cls="pwhash_keypair/empty-or-tiny-password"))
     # the key pair derived under each cost preset (64 MiB / 256 MiB / 1 GiB really run): libsodium's output at libsodium's constants
     for which in ("interactive", "default", "moderate", "sensitive"):
         cs.append(Case("pwhash_keypair_preset %s %s %s" % (which, hx(rbytes(rng, 7)), hx(rbytes(rng, 16))), cls="pwhash_keypair/preset-" + which, meta={"no_spec": True, "alloc_bound": 1 << 31}))
